@@ -22,7 +22,9 @@ func TestC16(t *testing.T) {
 	}
 	args := strs(alphabet, n)
 	args = append(args, "' OR 1=1 -- ", "\\' OR 1=1 -- ", "x'; DROP TABLE t; --", "\\", "\\\\'", "''", "a\\'b", "/* */ $1", "-- $1\n", "%27", "\\x27")
-	r := &result{Property: "C16", Name: "sanitized-argument-is-one-literal-and-echoes", Bound: fmt.Sprintf("all strings of length <= %d over %q plus %d hand-picked injection strings; templates: WHERE a = $1, SELECT $1 AS v FROM dual, and four templates in which the placeholder is glued to a comment, a literal or a quoted identifier that contains another $1", n, alphabet, 11)}
+	// a string argument is a byte string: bytes that are not valid UTF-8 reach the literal unchanged
+	args = append(args, "caf\xe9", "\xff", "\xff'\\", "truncated \xe4\xb8", "'\xc3", "\xc3'", "\x80\\\x80")
+	r := &result{Property: "C16", Name: "sanitized-argument-is-one-literal-and-echoes", Bound: fmt.Sprintf("all strings of length <= %d over %q plus %d hand-picked injection strings and byte strings that are not valid UTF-8; templates: WHERE a = $1, SELECT $1 AS v FROM dual, and four templates in which the placeholder is glued to a comment, a literal or a quoted identifier that contains another $1", n, alphabet, 18)}
 	doc := map[string]any{"t": []any{map[string]any{"a": "x", "n": 1.0}, map[string]any{"a": "y", "n": 2.0}}}
 	for _, arg := range args {
 		r.Cases++
